@@ -9,6 +9,7 @@ Open Scope Z_scope.
 
 Section Sweep.
 Variables CS COL ROW : Z.
+Variable FX : bool.
 
 (* --- the clauses of the property as executable checks on the model's outputs --- *)
 
@@ -77,7 +78,7 @@ Definition check_step (pre : list op) (x : xst) (o : op) : bool * xst :=
   let fins1 := match o with
                | LoadDone l _ => if existsb (Z.eqb l) (inflight s) then (l, zlen pre) :: fins else fins
                | _ => fins end in
-  let '(s1, evs) := step CS COL ROW s o in
+  let '(s1, evs) := step CS COL ROW FX s o in
   (forallb (event_ok fins1 (pre ++ [o])) evs && accounting_ok s1 && waits_ok s1, (s1, fins1)).
 
 Fixpoint run_ok (pre : list op) (s : xst) (ops : list op) : bool :=
@@ -122,13 +123,13 @@ Definition alpha1 : list op :=
     Reset;
     SetLimits 0 1 0 ].                 (* hard limit 1 byte: everything is trimmed as soon as it is stored *)
 
-Definition sweep1 (n : nat) : bool := dfs 2 24 1456 alpha1 n [] (st0, []).
+Definition sweep1 (n : nat) : bool := dfs 2 24 1456 false alpha1 n [] (st0, []).
 
 Lemma sweep1_4 : sweep1 4 = true.
 Proof. vm_compute. reflexivity. Qed.
 
 Theorem bounded_all_clauses :
-  forall ops, length ops = 4%nat -> Forall (fun o => In o alpha1) ops -> run_ok 2 24 1456 [] (st0, []) ops = true.
+  forall ops, length ops = 4%nat -> Forall (fun o => In o alpha1) ops -> run_ok 2 24 1456 false [] (st0, []) ops = true.
 Proof. intros. eapply dfs_sound; eauto. exact sweep1_4. Qed.
 
 (* a narrower alphabet, deeper: two overlapping requests, their storage calls, an invalidation, and enough
@@ -140,10 +141,10 @@ Definition alpha2 : list op :=
     LoadDone 1 true; LoadDone 2 true;
     Invalidate 1 [-7; -5] ].
 
-Lemma sweep2_6 : dfs 2 24 1456 alpha2 6 [] (st0, []) = true.
+Lemma sweep2_6 : dfs 2 24 1456 false alpha2 6 [] (st0, []) = true.
 Proof. vm_compute. reflexivity. Qed.
 
 Theorem bounded_all_clauses_deep :
-  forall ops, length ops = 6%nat -> Forall (fun o => In o alpha2) ops -> run_ok 2 24 1456 [] (st0, []) ops = true.
+  forall ops, length ops = 6%nat -> Forall (fun o => In o alpha2) ops -> run_ok 2 24 1456 false [] (st0, []) ops = true.
 Proof. intros. eapply dfs_sound; eauto. exact sweep2_6. Qed.
 
